@@ -70,3 +70,19 @@ Definition search_path_of (cmd : str) (path_env : option str) : option str :=
        | Some p => Some p
        | None => None
        end.
+
+(* PrepExec::exec: try the candidates in order; fs c = None means the image at c starts, Some e that
+   execve fails with errno e.  Returns the candidates tried and the outcome: the image that runs, or the
+   error reported (the last one; ENOENT when PATH had no usable entry). *)
+Definition ENOENT : N := 2.
+Fixpoint exec_loop (fs : str -> option N) (cands : list str) (last : N) : list str * (str + N) :=
+  match cands with
+  | [] => ([], inr last)
+  | c :: r => match fs c with
+              | None => ([c], inl c)
+              | Some e => let (tried, res) := exec_loop fs r e in (c :: tried, res)
+              end
+  end.
+
+Definition lookup_and_exec (fs : str -> option N) (cmd : str) (path_env : option str) : list str * (str + N) :=
+  exec_loop fs (candidates cmd (search_path_of cmd path_env)) ENOENT.
